@@ -88,7 +88,7 @@ def misbehaving(seed, quick):
             for nth in (range(1, 9) if not quick else [1, 2, 3, 5, 7]):
                 add('silent%d' % nth, kind, crc, [dict(when='cmd', nth=nth, what='silent')], [O('read', blk=1, n=1)], pre=[])
             for cmd in ['cmd17', 'cmd18', 'cmd24', 'cmd25', 'cmd9', 'cmd13', 'cmd58', 'acmd41', 'cmd8', 'cmd12', 'acmd23', 'cmd55']:
-                for what in (['silent', 'r1err'] if not quick or crc else ['r1err']):
+                for what in (['silent', 'r1err', 'r1crc', 'r1ill'] if not quick or crc else ['r1err', 'r1crc']):
                     tgt = {'cmd17': [O('read', blk=1, n=1)], 'cmd18': [O('read', blk=1, n=3)], 'cmd24': [O('write', blk=1, n=1)],
                            'cmd25': [O('write', blk=1, n=3)], 'cmd9': [O('num_blocks')], 'cmd13': [O('write', blk=1, n=1)],
                            'cmd12': [O('read', blk=1, n=2)], 'acmd23': [O('write', blk=1, n=2)]}.get(cmd, [O('read', blk=1, n=1)])
@@ -100,6 +100,20 @@ def misbehaving(seed, quick):
                     for what in ('silent', 'r1err'):
                         add('retry%d-%s%d' % (retries, what, nfail), kind, crc, [dict(when='cmd0', nth=k, what=what) for k in range(1, nfail + 1)],
                             [O('read', blk=1, n=1)], pre=[], extra=dict(retries=retries))
+            # a card that ALWAYS answers one command with "illegal command" / an error (an MMC-like card, a card without ACMD23, ...)
+            for cmd, tgt in [('acmd41', [O('read', blk=1, n=1)]), ('cmd55', [O('read', blk=1, n=1)]), ('cmd8', [O('read', blk=1, n=1)]), ('cmd58', [O('read', blk=1, n=1)]),
+                             ('cmd0', [O('read', blk=1, n=1)])]:
+                for what in ('r1ill', 'r1err'):
+                    if quick and (not crc or (what == 'r1err') != (cmd in ('cmd55', 'cmd58'))):
+                        continue      # (each of these runs into a time-out of 10 000 rounds)
+                    add('always-%s-%s' % (cmd, what), kind, crc, [dict(when=cmd, nth=0, what=what)], tgt, pre=[], extra=dict(retries=3))
+            for cmd, tgt in [('acmd23', [O('write', blk=1, n=2), O('read', blk=1, n=2)]), ('cmd13', [O('write', blk=1, n=1), O('read', blk=1, n=1)]),
+                             ('cmd12', [O('read', blk=1, n=2), O('read', blk=1, n=1)]), ('cmd17', [O('read', blk=1, n=1), O('write', blk=1, n=1)]),
+                             ('cmd25', [O('write', blk=1, n=2), O('write', blk=1, n=1)])]:
+                for what in ('r1ill', 'r1err'):
+                    if cmd == 'cmd12':
+                        continue          # (the stop command inside a running read is answered by the stream itself)
+                    add('always-%s-%s' % (cmd, what), kind, crc, [dict(when=cmd, nth=0, what=what)], tgt)
             add('badecho', kind, crc, [dict(when='cmd8', nth=n, what='badecho') for n in range(1, 3)], [O('read', blk=1, n=1)], pre=[])
             add('neverready', kind, crc, [], [O('read', blk=1, n=1)], pre=[], timing=dict(resp=1, tok=2, busy=3, acmd41=1000000))
             # data blocks
@@ -136,7 +150,7 @@ def misbehaving(seed, quick):
             for after in ([10001, 10002, 10100, 10256, 10257] if quick else [10000 + k for k in range(0, 262, 3)]):
                 add('spiflush%d' % after, kind, crc, [dict(when='cmd', nth=1, what='silent')], [O('spierr', after=after), O('card_type')], pre=[])
             for after in ([0, 2, 6, 9, 100, 520, 1050] if quick else list(range(0, 30)) + list(range(510, 540)) + [1050, 1570]):
-                for val in (255, 0):
+                for val in ((255, 0) if quick and after not in (6, 520) else (255, 0, 0x7F, 0x55, 0x05, 0x01, 0xFE)):
                     tail = [O('read', blk=2, n=1), O('revive'), O('mark_uninit'), O('read', blk=2, n=1), O('write', blk=2, n=1), O('read', blk=2, n=1)]
                     add('die%d-%d' % (after, val), kind, crc, [], [O('kill', after=after, val=val), O('write', blk=1, n=2)] + tail)
                     add('dier%d-%d' % (after, val), kind, crc, [], [O('kill', after=after, val=val), O('read', blk=1, n=2)] + tail)
